@@ -131,6 +131,42 @@ pub fn model(ops: &[&ClientOp], clean_eof: bool) -> Expect {
     }
 }
 
+/// What a panic did to the session: exit status (when `exit` was scripted), the responses written
+/// must be the owed ones in order, and on the graceful paths all of them.
+fn judge_after_panic(_sc: &Scenario, rec: &runner::RunRecord, exp: &Expect, _stream_end: usize) -> Judgement {
+    let mut j = Judgement::default();
+    if let Some(h) = &rec.hang {
+        j.violate(ID, "terminates", "terminates".into(), format!("after a panic the process neither ends nor makes progress: {h:?}"));
+        return j;
+    }
+    let status = rec.status().unwrap_or(-1);
+    if let ModelEnd::Exit(want) = exp.end {
+        if status != want {
+            j.violate(ID, "exit-status", format!("exit-status want {want}"), format!("the session ends with `exit` and must end with status {want}, the process ended with {status}"));
+            return j;
+        }
+    }
+    let got = rec.responses();
+    for (i, (id, result, code)) in got.iter().enumerate() {
+        match exp.owed.get(i) {
+            Some((want_id, owe)) if want_id == id && satisfies(owe, *result, *code) => {}
+            _ => {
+                j.violate(ID, "response-order", "response-order".into(), format!("response #{i} (id {id}) is not the response owed in that position"));
+                return j;
+            }
+        }
+    }
+    if exp.complete && got.len() < exp.owed.len() {
+        j.violate(
+            ID,
+            "complete-before-exit",
+            "complete-before-exit".into(),
+            format!("only {} of {} owed responses were written (first missing id {}), the process ended with status {status}", got.len(), exp.owed.len(), exp.owed[got.len()].0),
+        );
+    }
+    j
+}
+
 fn satisfies(owe: &Owe, result: Option<&serde_json::Value>, code: Option<i64>) -> bool {
     match owe {
         // a result, or an error that is not one of the lifecycle codes (a server may answer a
@@ -508,14 +544,27 @@ fn judge_inner(sc: &Scenario) -> Judgement {
         .filter(|(_, p)| !(rec.epipe_fired && p.message.contains("Sending responses failed")))
         .map(|(t, p)| format!("task {t}: {} at {}:{}", p.message, p.file, p.line))
         .collect();
+    // A panic is C02's finding as such - but what it does to this session's responses and exit
+    // status is judged here as well (C02's sessions are orderly; a crash that only a lifecycle
+    // oddity reaches - a request after `shutdown`, a second `initialize` - would otherwise be
+    // nobody's): the judgement goes on and the signature says that a panic was involved.
+    let mut panicked: Option<String> = None;
     if let Some(ProcessEnd::MainPanicked(p)) = &rec.end {
         if !rec.epipe_fired {
             j.notes.push(format!("other-property=C02 main task panicked: {} at {}:{}", p.message, p.file, p.line));
-            return j;
+            panicked = Some(super::c02::site(p));
         }
     }
     if !unexpected_panics.is_empty() {
         j.notes.push(format!("other-property=C02 task panic: {}", unexpected_panics.join("; ")));
+        panicked = panicked.or_else(|| rec.task_panics.first().map(|(_, p)| super::c02::site(p)));
+    }
+    if let Some(site) = &panicked {
+        let mut jj = judge_after_panic(sc, &rec, &exp, stream_end);
+        for v in &mut jj.violations {
+            v.signature = format!("{} after panic {site}", v.signature);
+        }
+        j.violations.extend(jj.violations);
         return j;
     }
 
